@@ -172,6 +172,32 @@ class Checker:
                     self.obs.append(LOb(d))
                 self.assumed |= set(out['assumed'])
 
+    def effects(self):
+        """frame obligations decided by the syntactic effects walker (pyvc/effects.py) over the real source"""
+        try:
+            specs = importlib.import_module('contracts.effects')
+        except ModuleNotFoundError:
+            return
+        from . import effects as fx
+        self.preset = {}
+        for spec in specs.FRAMES.get(self.prop, []):
+            try:
+                r = fx.check_frame(spec['entry'], spec['frame'], receivers=spec.get('receivers'), extra_pure=spec.get('extra_pure', ()),
+                                   dynamic=spec.get('dynamic'), allow=spec.get('allow', ()))
+            except front.AttachError as e:
+                self.problems.append('frame contract cannot attach: %s' % e)
+                continue
+            for f in r['functions']:
+                f = dict(f, under='frame contract of %s::%s' % spec['entry'])
+                self.functions.append(f)
+            for o in r['obligations']:
+                lob = LOb({'name': '%s.%s' % (self.prop, o['name']), 'kind': 'frame', 'label': spec['label'], 'func': '%s::%s' % spec['entry'], 'line': o['detail'].get('line', 0),
+                           'goal_str': json.dumps(o['detail'], default=str)[:300], 'n_hyps': 0, 'trivial': True, 'smt2': None})
+                lob.preset = {'status': 'proved' if o['ok'] else 'failed', 'backend': 'effects-walker', 'secs': 0.0, 'n_inst': 0,
+                              'model': None if o['ok'] else json.dumps(o['detail'], default=str)}
+                self.obs.append(lob)
+            self.assumed |= set(getattr(specs, 'ASSUME', []))
+
     def discharge(self):
         if not self.obs:
             return
@@ -179,6 +205,9 @@ class Checker:
         items = []
         for i, ob in enumerate(self.obs):
             ob.uid = i
+            if getattr(ob, 'preset', None):
+                self.results[i] = ob.preset
+                continue
             if ob.trivial:
                 self.results[i] = {'status': 'proved', 'backend': 'trivial', 'secs': 0.0, 'n_inst': 0, 'model': None}
                 continue
@@ -403,6 +432,7 @@ def check(prop, tier, seed):
     proc, outp = run_concrete_async(prop, tier, seed)
     try:
         ck.generate()
+        ck.effects()
         ck.discharge()
     except Exception:
         ck.problems.append('checker crash during VC generation/discharge: ' + traceback.format_exc()[-1500:])
